@@ -4,11 +4,12 @@
    [wf h d t]: t is a trie of height h keyed from column d on, as produced by insert/merge
    (distinct child keys, no empty child, rows below child k have k in column d, leaves are sets).
    The extended model ModelGHT2 (every leaf storage, `forced` flag, force_drain, child drain, COLT
-   forest get) is correspondence-checked; proved about it: the two recorded deviations below and
-   conservation of the multiset of rows by insert / merge_node / force_drain for the counted and
-   column leaf storages.  NOT proved (correspondence only): ColtGet::get returns a forest holding
-   exactly the rows with the given prefix and loses nothing. *)
-From HV Require Import Coll.ModelGHT Coll.PGHT Coll.ModelGHT2 Coll.PGHT2 Coll.PVC.
+   forest get) is correspondence-checked; proved about it (the two former deviations are fixed in
+   /repo, see the end of the file): conservation of the multiset of rows by insert / merge_node / force_drain for the counted and
+   column leaf storages, and the COLT forest: ColtGet::get along any key path keeps the forest
+   well-formed, loses nothing and returns exactly the rows with the prefix (C08_colt_get,
+   C08_colt_history). *)
+From HV Require Import Coll.ModelGHT Coll.PGHT Coll.ModelGHT2 Coll.PGHT2 Coll.PVC Coll.PCOLT.
 From Coq Require Import Permutation.
 
 (* Every answer of every history of insert / merge / contains / recursive_iter / prefix_iter /
@@ -186,6 +187,32 @@ Theorem C08_multiset_force_drain :
 Proof. intros k a m p. exact (@sforce_drain_cnt k a m p). Qed.
 Print Assumptions C08_multiset_force_drain.
 
+(* ---- COLT (colt.rs): forest of tries of heights 0..n-1 (PCOLT.fswf: each well-formed -- distinct
+   keys, rows below child k carry k in column d, leaves refine bags of rows of arity a; children
+   may be empty), multiset leaf storage.  ColtGet::get along [path] (each get's result is the
+   receiver of the next): the forest keeps its shape and stays well-formed, the multiset of all
+   rows is unchanged, and the result forest holds exactly the rows whose columns d.. start with
+   [path], each with its multiplicity. *)
+Theorem C08_colt_get :
+  forall k a, k <> KSet -> 0 < a -> forall path d fs,
+    map fst fs = seq 0 (length fs) -> fswf k a d fs -> d + length fs <= S a ->
+    (path = [] \/ length path < length fs) ->
+    let res := colt_get_path k a d fs path in
+    map fst (fst res) = map fst fs /\ fswf k a d (fst res) /\
+    (forall x, cnt (T (fst res)) x = cnt (T fs) x) /\
+    (forall x, cnt (concat (snd res)) x = if has_prefix path (skipn d x) then cnt (T fs) x else 0).
+Proof. intros k a m p. exact (colt_get_spec k a m p). Qed.
+Print Assumptions C08_colt_get.
+
+(* every history of insert / get along any path / all-rows on a fresh COLT forest of a+1 tries
+   answers as the plain multiset of inserted rows does (cspec_holds is the executable form the
+   correspondence check evaluates on the real forests) *)
+Theorem C08_colt_history :
+  forall k a, k <> KSet -> 0 < a -> forall ops,
+    Forall (cop_ok a) ops -> cspec_holds [] ops (cmodel_run k a (S a) ops) = true.
+Proof. intros k a m p. exact (colt_history k a m p). Qed.
+Print Assumptions C08_colt_history.
+
 (* ---- former findings *)
 (* FORMER FINDING, fixed in /repo by beb89003dcf: the derived PartialEq of GhtLeaf compared the
    COLT flag `forced` (former theorem C08_forced_eq_refuted, witness PGHT2.forced_ops =
@@ -209,6 +236,12 @@ Example C08_former_empty_child_witness :
 Proof. exact empty_child_now_agrees. Qed.
 
 (* ---- non-vacuity *)
+Example C08_ex_colt :
+  cmodel_run KColumn 2 3 [CInsert [1; 1]; CInsert [1; 2]; CInsert [2; 2]; CGet [1]; CGet [1; 2]; CAll]%N
+  = [CAUnit; CAUnit; CAUnit; CAForest [[[1; 1]; [1; 2]]; []]; CAForest [[[1; 2]]];
+     CAForest [[]; [[2; 2]]; [[1; 1]; [1; 2]]]]%N
+  /\ Forall (cop_ok 2) [CInsert [1; 1]; CGet [1; 2]; CAll]%N.
+Proof. split; [vm_compute; reflexivity|repeat constructor]. Qed.
 Example C08_ex_good :
   good KColumn 2 1 (sinsert KColumn 2 1 0 (sempty KColumn 2 1) [1; 2]%N).
 Proof.
